@@ -463,17 +463,17 @@ AllDevs == {"ListOpJoined", "AssignAt0", "ListTestIgnored", "ListAtIgnored", "Wo
             "AnchoredReplLiteral", "UnsetTransformed", "QSafeUnquoted", "QDoubleQuoted", "KeysOfScalar", "KeysJoined",
             "LenAssocOne", "IndirectSubscript", "IndirectBadName", "NamesAtEmptyField", "PatQuotesIgnored",
             "EmptyFieldsDropped", "SuffixStopsAtNewline", "AmpLiteral"}
+\* Switches that still describe /repo (the others above were retired when their fixes were applied:
+\* ListTestIgnored ListAtIgnored NegLenClamped AnchoredReplLiteral AmpLiteral UnsetTransformed KeysOfScalar
+\* LenAssocOne NamesAtEmptyField SuffixStopsAtNewline, and ListOpJoined for everything but the test operators;
+\* their definitions stay in Sem as documentation of what the fixes removed, but are never switched on).
 DevsOf(f) ==
-  CASE f = "test" -> {"ListOpJoined", "AssignAt0", "ListTestIgnored", "WordQuotesIgnored"}
-    [] f = "sub"  -> {"NegLenClamped"}
-    [] f = "rem"  -> {"ListOpJoined", "PatQuotesIgnored", "SuffixStopsAtNewline"}
-    [] f = "case" -> {"ListOpJoined"}
-    [] f = "repl" -> {"ListOpJoined", "AnchoredReplLiteral", "UnsetTransformed", "AmpLiteral"}
-    [] f = "at"   -> {"ListOpJoined", "ListAtIgnored", "UnsetTransformed", "QSafeUnquoted", "QDoubleQuoted"}
-    [] f = "keys" -> {"KeysOfScalar", "KeysJoined"}
-    [] f = "len"  -> {"LenAssocOne"}
+  CASE f = "test" -> {"ListOpJoined", "AssignAt0", "WordQuotesIgnored"}
+    [] f = "rem"  -> {"PatQuotesIgnored"}
+    [] f = "at"   -> {"QSafeUnquoted", "QDoubleQuoted"}
+    [] f = "keys" -> {"KeysJoined"}
     [] f = "ind"  -> {"IndirectSubscript", "IndirectBadName"}
-    [] f = "names" -> {"NamesAtEmptyField", "KeysJoined"}
+    [] f = "names" -> {"KeysJoined"}
     [] OTHER -> {}
 
 \* a quoted * or ? taken as the wildcard
